@@ -152,9 +152,10 @@ class Runner:
             a.close()
 
 
-def validate(v, schedules, layout, tag):
+def validate(v, schedules, layout, tag, module="TraceLocks", cfg=None, fname="locks.ndjson", reset=None):
     """schedules: list of (name, events).  One TLC run over the concatenation; on rejection the offending
     schedule is identified from the high-water mark and the rest is validated again."""
+    cfg = cfg or ("TraceLocks_%s.cfg" % layout)
     results = {}
     todo = list(schedules)
     d = common.sub("locks-" + tag)
@@ -163,14 +164,15 @@ def validate(v, schedules, layout, tag):
         rounds += 1
         lines, owner = [], []
         for name, evs in todo:
-            lines.append({"who": "h1", "ev": "reset", "table": {}, "fver": 0})
-            owner.append(name)
+            if reset is None:
+                lines.append({"who": "h1", "ev": "reset", "table": {}, "fver": 0})
+                owner.append(name)
             for e in evs:
                 lines.append(e)
                 owner.append(name)
         f = os.path.join(d, "locks-%d.ndjson" % rounds)
         common.write_ndjson(f, lines)
-        r = common.tlc("TraceLocks", cfg="TraceLocks_%s.cfg" % layout, files={f: "locks.ndjson"}, workers=1, timeout=1200,
+        r = common.tlc(module, cfg=cfg, files={f: fname}, workers=1, timeout=1200,
                        name="locks-%s-%d" % (tag, rounds), heap="8g")
         v.add_tlc(r)
         vp = os.path.join(r.workdir, "verdict.json")
@@ -178,7 +180,7 @@ def validate(v, schedules, layout, tag):
             verdict = json.load(open(vp))
             for name, _ in todo:
                 results.setdefault(name, {"accepted": True, "viol": []})
-            for x in verdict["viol"]:
+            for x in verdict.get("viol", []):
                 results[owner[x["i"] - 1]]["viol"].append({"line": lines[x["i"] - 1], "why": sorted(x["why"])})
             break
         import re
@@ -196,7 +198,7 @@ def validate(v, schedules, layout, tag):
         first = todo[:k]
         if first:
             # re-validate the accepted prefix alone to collect its observed violations
-            sub = validate(v, first, layout, tag + "-pre%d" % rounds)
+            sub = validate(v, first, layout, tag + "-pre%d" % rounds, module=module, cfg=cfg, fname=fname, reset=reset)
             results.update(sub)
         todo = todo[k + 1:]
         if rounds > 30:
